@@ -169,6 +169,13 @@ func (c *Ctx) flush() {
 			} else {
 				c.TracesOK++
 			}
+		case "errprefix":
+			// accept/reject only: the model must reject too (any code)
+			if !strings.HasPrefix(line, "err ") {
+				c.fail(Failure{Kind: "correspondence", Op: p.op, Impl: "err <some code>", Model: line})
+			} else {
+				c.TracesOK++
+			}
 		case "model|spec":
 			parts := strings.SplitN(line, " | ", 2)
 			m, s := parts[0], ""
